@@ -119,6 +119,11 @@ def at(tab, i):          # cyclic menu lookup, i 0-based
 # instance generation
 # --------------------------------------------------------------------------------------------
 KINDS = ["dict", "softmax", "table", "uniform", "det", "softmax", "pairs", "table"]
+# likelihood scale 2^-1027: the evidence sum p(x) l(x) 2^-1027 is below 2^-1024 = 1/DBL_MAX (for sums < 8), yet
+# every term >= 2^-7 * 2^-1027 = 2^-1034 keeps 40 of its 52 mantissa bits (subnormals end at 2^-1074), i.e. a
+# relative error <= 2^-40 = 1e-12 per term, three orders below the comparison tolerance 1e-9
+LSCALE = 1027
+LS_MIN_TERM = F(1, 2 ** 7)
 TINYGAP = 64          # as in the spec: a finite score more than 64 ln 2 below the maximum is `tiny`
 TINY_REAL = 1e-18     # what the real code may report for such an event (2^-64 = 5.4e-20)
 WIDE_GAPS = [70, 200, 1100, 1500, 3000]
@@ -132,6 +137,7 @@ def fix_rec(r):
 def fix_inst(inst):
     inst.setdefault("OPS", list(OPS))
     inst.setdefault("FIBK", [])
+    inst.setdefault("LS", [0] * len(inst["L"]))
     fix_rec(inst["init"])
     for r in inst["O"]:
         fix_rec(r)
@@ -223,6 +229,12 @@ def make_instance(rng, depth):
          [rng.choice(lvals[1:]) for _ in range(3)]]
     if rng.random() < 0.5:
         L = L[:2]
+    # likelihood scale exponents: menu j is handed to the code as l(x) * 2^-LS[j] (evidence below 2^-1024)
+    LS = [0] * len(L)
+    if rng.random() < 0.6:
+        LS[1] = LSCALE
+    if len(L) == 3 and rng.random() < 0.5:
+        LS[2] = LSCALE
     G = [[rng.randint(-3, 5) for _ in range(5)], [rng.randint(-3, 5)] * 2 if rng.random() < 0.4
          else [rng.randint(-3, 5) for _ in range(4)]]
     scal = [(1, 2), (1, 2), (1, 4), (3, 4), (1, 1), (2, 1), (0, 1), (1, 3)]
@@ -236,7 +248,7 @@ def make_instance(rng, depth):
             MX[0]["bn"], MX[0]["bd"] = 1, 1
     C = rng.sample([-2000, -3, 1, 7, 2000, 40], 2)
     return {"NA": NA, "MAXN": MAXN, "DEPTH": depth, "init": init, "O": O, "F": Ftab, "K": K, "L": L,
-            "G": G, "MX": MX, "C": C}
+            "G": G, "MX": MX, "C": C, "LS": LS}
 
 
 # --------------------------------------------------------------------------------------------
@@ -493,6 +505,8 @@ def build(rec, labels, variant):
                                    **{e: x for e, x in sc.items() if isinstance(e, str)})
     if variant == "softmax_pairs":
         return SoftmaxDistribution(list(zip(evs, real_scores(rec, rec["k"]))))
+    if variant == "uniform_nocheck":
+        return UniformDistribution(list(evs), check_unique=False)
     if variant == "uniform_list":
         return UniformDistribution(list(evs))
     if variant == "uniform_tuple":
@@ -521,11 +535,23 @@ def real_scores(rec, k, shift=0.0):
 DRIFT_VARIANTS = {"uniform_set", "uniform_keys"}
 
 
+NBATCH = 24
+
+
+def batch_ok(obj):
+    """sample() of this class has the optional batch argument k."""
+    import inspect
+    try:
+        return "k" in inspect.signature(obj.sample).parameters
+    except (TypeError, ValueError):
+        return False
+
+
 def raw_object(prefix):
     """True while the object at this chain prefix is still the initial object (only observations /
     softmax re-constructions so far); after any other operation it is an ordinary DictDistribution."""
     return all(o in ("shift", "expect") for o, _ in prefix)
-CLASS_OF = {"ptsel": "ProbabilityTable-row[column list]", "dict_kw": "DictDistribution(**kw)",
+CLASS_OF = {"uniform_nocheck": "UniformDistribution(check_unique=False)", "ptsel": "ProbabilityTable-row[column list]", "dict_kw": "DictDistribution(**kw)",
             "uniform_range": "UniformDistribution[range]", "uniform_range_cls": "UniformDistribution[range]",
             "uniform_str": "UniformDistribution[str]", "softmax_kw": "SoftmaxDistribution(**kw)",
             "softmax_part": "SoftmaxDistribution(mapping, **kw)", "softmax_pairs": "SoftmaxDistribution(pairs)",
@@ -559,7 +585,7 @@ def variants_for(rec, labels=None):
         elif any(isinstance(e, str) for e in evs):
             vs.append("softmax_part")
     if len(set(ps)) == 1 and ps[0] == F(1, len(ps)):
-        vs += [v for v in ("uniform_list", "uniform_tuple", "uniform_cls", "uniform_set", "uniform_keys") if v not in vs]
+        vs += [v for v in ("uniform_list", "uniform_nocheck", "uniform_tuple", "uniform_cls", "uniform_set", "uniform_keys") if v not in vs]
         if evs is not None and all(type(e) is int for e in evs):
             srt = sorted(evs)
             if len(srt) == 1 or (len({b - a for a, b in zip(srt, srt[1:])}) == 1 and srt[1] > srt[0]):
@@ -606,9 +632,18 @@ def real_step(case, obj, pre, op, j, salt, scores):
         tab = inst["L"][j]
         boolean = all(v in ([0, 1], [1, 1]) for v in tab)
 
+        e = inst.get("LS", [0] * len(inst["L"]))[j]
+        if e and not boolean:
+            # scale only if every positive term of the evidence stays precise in the subnormal range
+            terms = [p * frac(at(tab, i)) for i, p in enumerate(pre.values())]
+            terms = [t for t in terms if t > 0]
+            if not terms or min(terms) < LS_MIN_TERM or sum(terms) >= 8:
+                e = 0
+        scale = 2.0 ** -e if e and not boolean else 1.0
+
         def lk(x):
             v = at(tab, pos[x])
-            return (v[0] == 1) if boolean else v[0] / v[1]
+            return (v[0] == 1) if boolean else (v[0] / v[1]) * scale
         return obj.condition(lk)
     if op == "joint":
         return obj.joint(build(inst["O"][j], labels, operand_variant(inst["O"][j], salt)))
@@ -989,7 +1024,13 @@ def replay_case(ctx, i, c, chains, traces, ndraws, corrupt, corrupt_init=None):
         for rep in range(2):
             g = random.Random(seed)
             try:
-                seqs.append([obj.sample(rng=g) for _ in range(ndraws)])
+                draws = [obj.sample(rng=g) for _ in range(ndraws)]
+                if batch_ok(obj):
+                    # the batch form sample(k=n) of the same generator (a one-point distribution returns its
+                    # event instead of a list)
+                    more = obj.sample(rng=g, k=NBATCH)
+                    draws += list(more) if isinstance(more, list) else [more]
+                seqs.append(draws)
                 ctx.evaluations += 1
             except Exception as e:                      # noqa: BLE001
                 err = e
@@ -1004,6 +1045,12 @@ def replay_case(ctx, i, c, chains, traces, ndraws, corrupt, corrupt_init=None):
                 ctx.violation(f"C11:{site}.sample:error:{shape_of(exp)}", f"{site}.sample raised {type(err).__name__}: {err}",
                               {"case": c.json(), "variant": v, "chain": [list(x) for x in prefix], "clause": "sample"})
             continue
+        if len(seqs[0]) != len(seqs[1]):
+            case_ok = False
+            ctx.violation(f"C11:{site}.sample:seeded-sequences-differ:{shape_of(exp)}",
+                          f"{site}.sample: {len(seqs[0])} vs {len(seqs[1])} draws from equally seeded generators",
+                          {"case": c.json(), "variant": v, "chain": [list(x) for x in prefix], "clause": "sample"})
+            continue
         ab = [[abstr(x, c.inv) for x in s] for s in seqs]
         unknown = [x for s, a in zip(seqs, ab) for x, y in zip(s, a) if y is None]
         if unknown:
@@ -1011,14 +1058,14 @@ def replay_case(ctx, i, c, chains, traces, ndraws, corrupt, corrupt_init=None):
             ctx.violation(f"C11:{site}.sample:foreign-event:{shape_of(exp)}", f"{site}.sample returned {unknown[0]!r}, not an event of the distribution",
                           {"case": c.json(), "variant": v, "chain": [list(x) for x in prefix], "clause": "sample"})
             continue
-        traces.append({"ci": i, "variant": v, "site": site, "shape": shape_of(exp), "prefix": prefix,
+        traces.append({"ci": i, "variant": v, "site": site, "shape": shape_of(exp), "prefix": prefix, "nsingle": ndraws,
                        "rec": {"inst": inst, "ops": [{"op": op, "j": j} for op, j in prefix],
                                "s1": [ev_json(e) for e in ab[0]], "s2": [ev_json(e) for e in ab[1]],
                                "tag": f"{i}:{v}:{len(traces)}"}})
         # DRIFT level only (not a clause): empirical frequencies within a Hoeffding band of 1e-12
         band = math.sqrt(math.log(2e12) / (2 * ndraws))
         for e, p in exp.items():
-            if sum(exp.values()) > 0 and abs(ab[0].count(e) / ndraws - float(p / sum(exp.values()))) > band:
+            if sum(exp.values()) > 0 and abs(ab[0][:ndraws].count(e) / ndraws - float(p / sum(exp.values()))) > band:
                 drift_once(ctx, "sample-frequency", site, {"where": f"{site} {list(prefix)}", "event": str(e)})
     if case_ok and len(D0) >= 2 and any(p > 0 for p in D0.values()):
         for op in ops_seen:
@@ -1053,8 +1100,9 @@ def validate_traces(ctx, cases, traces):
             if t["variant"] in DRIFT_VARIANTS and raw_object(t["prefix"]):
                 observed(ctx, f"{t['site']}.sample:{kind}")
                 continue
-            ctx.violation(f"C11:{t['site']}.sample:{kind}:{t['shape']}",
-                          f"{t['site']}.sample returned {conc(e, c.labels)!r} at draw {r['at']}: not an enabled Sample of the model "
+            form = "sample(k=n)" if r["at"] > t.get("nsingle", 10 ** 9) else "sample"
+            ctx.violation(f"C11:{t['site']}.{form}:{kind}:{t['shape']}",
+                          f"{t['site']}.{form} returned {conc(e, c.labels)!r} at draw {r['at']}: not an enabled Sample of the model "
                           f"(distribution {r['dist']})", case)
         elif r["verdict"] == "rejected-seed":
             if t["variant"] in DRIFT_VARIANTS and raw_object(t["prefix"]):
